@@ -33,7 +33,7 @@ def generate(tier, seed):
     n = 36 if tier == "quick" else 3000
     for k in range(n):
         cases.append({"kind": "history", "seed": "%d:h:%d" % (seed, k), "cost": 200})
-    n = 40 if tier == "quick" else 2000
+    n = 64 if tier == "quick" else 3000
     for k in range(n):
         cases.append({"kind": "layouts", "seed": "%d:l:%d" % (seed, k), "cost": 120})
     return cases
@@ -49,7 +49,32 @@ def make_input(rng, kind=None):
     """(text, description) of one input structure."""
     from .. import fragments, multiconf, pdbio, sources
     kind = kind or rng.choice(("cutout", "cluster", "cluster", "chimera", "small-file", "multiconf", "unknown-element",
-                               "ligand", "polyamine", "protein", "free-ligand", "late-groups"))
+                               "ligand", "polyamine", "protein", "free-ligand", "late-groups", "acid-chain"))
+    if kind == "acid-chain":
+        # 3-5 carboxylates in a row, neighbouring oxygens 2.6-3.0 A apart: a non-covalently coupled system
+        # whose middle members have two partners and whose ends have one (far from a chain-start residue)
+        import math
+        resn, o1, o2 = rng.choice((("ASP", "OD1", "OD2"), ("GLU", "OE1", "OE2")))
+        res = sources.whole_residue(resn, o1)
+        a1 = [a for a in res if a.aname() == o1][0]
+        a2 = [a for a in res if a.aname() == o2][0]
+        ax = [a1.x - a2.x, a1.y - a2.y, a1.z - a2.z]
+        ln = math.sqrt(sum(c * c for c in ax))
+        u = [c / ln for c in ax]
+        out = []
+        for a in sources.whole_residue("VAL", "CB"):
+            a = a.copy()
+            a.chain, a.resnum, a.icode, a.x = "A", 1, " ", a.x + 40000 + (a1.x - a.x)
+            out.append(a)
+        off = 0.0
+        for k in range(rng.choice((3, 3, 4, 5))):
+            for a in res:
+                a = a.copy()
+                a.chain, a.resnum, a.icode = "A", 10 * (k + 1), " "
+                a.x, a.y, a.z = a.x + int(round(off * u[0])), a.y + int(round(off * u[1])), a.z + int(round(off * u[2]))
+                out.append(a)
+            off += ln + rng.choice((2600, 2800, 3000))
+        return pdbio.dump(out), {"input": "acid-chain", "residue": resn}
     if kind == "late-groups":
         # two or three MODELs; several ionizable residues are cut back to ALA in the first one, so their
         # groups exist in later conformations only (whatever collects them must do so in a fixed order)
@@ -448,9 +473,11 @@ def run_layouts(case, rng, viol, counts, classes):
     from .. import contracts, obs
     import propka.conformation_container as cc
     kind = rng.choice(("polyamine", "polyamine", "free-ligand", "free-ligand", "ligand", "cutout", "chimera", "small-file",
-                       "multiconf", "protein"))
+                       "multiconf", "protein", "cluster", "cluster", "acid-chain", "acid-chain", "acid-chain"))
     text, d = make_input(rng, kind)
     o = realise(concretise(rng.choice(([], ["-d"], [], ["PARAMS"])), text, rng))
+    if kind in ("cluster", "acid-chain") and rng.random() < 0.6:
+        o = ["-d"]          # non-covalently coupled systems are walked (and swapped) in display mode only
     if kind == "protein":
         k = 4
     else:
